@@ -869,6 +869,23 @@ func runC23(seed uint64, n int, out, stats string, _ []string) {
 			nontrivial = !bytes.Equal(bad, t.raw)
 		case p < 68: // of the signature or the data inside a transaction
 			kind = "noncanon-tx-inner"
+			if r.Intn(4) == 0 { // the signature data of a multisig transaction: [address, [[V,R,S]...]]
+				kind = "noncanon-multisig-inner"
+				var t0 transaction.Transaction
+				if err := rlp.DecodeBytes(g.genMultisigTx(), &t0); err != nil {
+					panic(err)
+				}
+				tree := mustTree(t0.SignatureData)
+				d, nd := pickDefect(tree, r)
+				inner := encodeBad(tree, d, nd, r)
+				g.defects["multisig:"+defectName[d]]++
+				t0.SignatureData = inner
+				raw, _ := rlp.EncodeToBytes(&t0)
+				g.opGeneric(inner)
+				g.opTx(raw)
+				nontrivial = true
+				break
+			}
 			t := g.genTx(false)
 			tx2 := t.tx
 			var inner []byte
@@ -1059,7 +1076,7 @@ func runC23(seed uint64, n int, out, stats string, _ []string) {
 	g.c.Close()
 	extra := map[string]interface{}{"accept_reject": g.acc, "defects": g.defects}
 	writeStats(stats, &Stats{Property: "C23", Seed: seed, Cases: g.c.NCases, Ops: g.c.NOps, NonTrivial: g.c.NonTriv,
-		Rule: "byte strings through the real rlp.DecodeBytes (generic interface{} tree, transaction.Transaction, check.Check, transaction.Signature), Executor.DecodeFromBytes, Sender/RecoverPlain vs. the Coq codec: ~50% valid encodings (signed transactions of 7 types, multisig transactions, checks, generic trees from rlp.EncodeToBytes, signature values at the boundaries of N and N/2), ~30% structured non-canonical variants of valid encodings (long-form length for a short payload, leading zero in the length of the length, 0x81 xx for xx<0x80, leading zero / oversized / 0x00 integers, one element more or less, list for string and string for list, length off by one, trailing bytes; at the top level, inside the signature, inside the data), ~20% high-S twins, V outside {27,28}, signatures moved to another transaction, bit flips, truncations, random bytes. non-trivial = accepted by the real decoder, or a structured variant / tampered signature / mutation of a valid encoding; distinct = distinct case text",
+		Rule: "byte strings through the real rlp.DecodeBytes (generic interface{} tree, transaction.Transaction, check.Check, transaction.Signature), Executor.DecodeFromBytes, Sender/RecoverPlain vs. the Coq codec: ~50% valid encodings (signed transactions of 7 types, multisig transactions, checks, generic trees from rlp.EncodeToBytes, signature values at the boundaries of N and N/2), ~30% structured non-canonical variants of valid encodings (long-form length for a short payload, leading zero in the length of the length, 0x81 xx for xx<0x80, leading zero / oversized / 0x00 integers, one element more or less, list for string and string for list, length off by one, trailing bytes; at the top level, inside the signature, inside the signature data of a multisig transaction, inside the data), ~20% high-S twins, V outside {27,28}, signatures moved to another transaction, bit flips, truncations, random bytes. non-trivial = accepted by the real decoder, or a structured variant / tampered signature / mutation of a valid encoding; distinct = distinct case text",
 		Dist: g.c.Dist, Samples: g.c.Samples, Monitor: g.mon, Extra: extra})
 }
 
